@@ -227,3 +227,15 @@ func resetIgnoredSignal(sig syscall.Signal) (wasIgnored bool, err error) {
 	}
 	return true, nil
 }
+
+// sigBlocked reports whether sig is blocked on the calling thread. Asked by system call, on a
+// thread that runs user code: the Go runtime blocks all signals only inside its own critical
+// sections (thread creation, fork), which is what /proc/self/status occasionally shows for
+// the main thread.
+func sigBlocked(sig syscall.Signal) (bool, error) {
+	var old uint64
+	if _, _, e := syscall.RawSyscall6(syscall.SYS_RT_SIGPROCMASK, 0 /* SIG_BLOCK */, 0, uintptr(unsafe.Pointer(&old)), 8, 0, 0); e != 0 {
+		return false, e
+	}
+	return old&(1<<(uint(sig)-1)) != 0, nil
+}
